@@ -93,6 +93,16 @@ Theorem replace_fuel_indep pairs fuel s : olds_nonempty pairs -> (S (length s) <
   replace_fuel fuel pairs s = replace_fuel (S (length s)) pairs s.
 Proof. intros Hne H. apply replace_fuel_enough; [exact Hne | lia | lia]. Qed.
 (* fuel-free equations: SrtEscProofs.replace_all_nil, replace_cons_match, replace_cons_nomatch *)
+(* the two tables the model uses satisfy the hypothesis (SrtEscProofs.esc_pairs_ne, unesc_pairs_ne) *)
+Corollary escape_html_fuel fuel s : (S (length s) <= fuel)%nat -> replace_fuel fuel esc_pairs s = escape_html s.
+Proof. intros H. apply replace_fuel_enough; [exact esc_pairs_ne | lia | unfold lt; reflexivity]. Qed.
+Corollary unescape_html_fuel fuel s : (S (length s) <= fuel)%nat -> replace_fuel fuel unesc_pairs s = unescape_html s.
+Proof. intros H. apply replace_fuel_enough; [exact unesc_pairs_ne | lia | unfold lt; reflexivity]. Qed.
+(* the hypothesis is needed: with an empty pattern the loop consumes nothing and stops only when the fuel is gone
+   (strings.NewReplacer with an empty old string inserts at every position instead).  Model scope, not a defect: the
+   tables are the two constants above. *)
+Example replace_empty_old_reaches_fuel : replace_all [([], [120])] [1] = [120; 120; 1].
+Proof. vm_compute. reflexivity. Qed.
 
 (* ---------------------------------------------------------------- lines, scan *)
 Theorem lines_fuel_indep fuel s : (S (length s) <= fuel)%nat -> lines_fuel fuel s = lines_fuel (S (length s)) s.
